@@ -319,14 +319,38 @@ Definition depth_rt_spec_ok (d : Z) (ofmt : obs string) (oparse : obs Z) : bool 
 
 (** (depth-dec s): ParseDepth(s) *)
 Definition depth_dec_agrees (s : string) (o : obs Z) : bool := obs_eqb Z.eqb (obs_of (parse_depth s)) o.
-Definition depth_dec_spec_ok (s : string) (o : obs Z) : bool := dec_spec_ok Z.eqb (depth_den s) o.
+(** RFC 4918 takes its ABNF from RFC 2616, where a quoted literal matches in any letter
+    case (section 2.1): an ASCII-case variant of a valid value ("Infinity", "t") is inside
+    the grammar as the RFCs define it, but it is not what any encoder here sends.  A decoder
+    may read it as the value its canonical spelling denotes, or refuse it; the canonical
+    spellings must be read; everything else must be refused. *)
+Definition ascii_lower (c : ascii) : ascii :=
+  if ((65 <=? byte c) && (byte c <=? 90))%N then chr (byte c + 32) else c.
+Fixpoint lower_ascii (s : string) : string :=
+  match s with EmptyString => EmptyString | String c r => String (ascii_lower c) (lower_ascii r) end.
+Fixpoint assoc_str_ci {A} (l : list (string * A)) (s : string) : option A :=
+  match l with
+  | [] => None
+  | (k, v) :: r => if String.eqb (lower_ascii k) (lower_ascii s) then Some v else assoc_str_ci r s
+  end.
+Definition dec_spec_ci {A} (eqb : A -> A -> bool) (den den_ci : option A) (o : obs A) : bool :=
+  match den, den_ci with
+  | Some v, _ => dec_spec_ok eqb (Some v) o
+  | None, Some v => dec_spec_sound eqb (Some v) o
+  | None, None => dec_spec_ok eqb None o
+  end.
+Definition depth_den_ci (s : string) : option Z := assoc_str_ci depth_table s.
+Definition depth_dec_spec_ok (s : string) (o : obs Z) : bool :=
+  dec_spec_ci Z.eqb (depth_den s) (depth_den_ci s) o.
 
 Definition overwrite_rt_agrees (b : bool) (ofmt : string) (oparse : obs bool) : bool :=
   String.eqb (format_overwrite b) ofmt && obs_eqb Bool.eqb (obs_of (parse_overwrite ofmt)) oparse.
 Definition overwrite_rt_spec_ok (b : bool) (ofmt : string) (oparse : obs bool) : bool :=
   opt_eqb Bool.eqb (overwrite_den ofmt) (Some b) && obs_eqb Bool.eqb oparse (ObsOk b).
 Definition overwrite_dec_agrees (s : string) (o : obs bool) : bool := obs_eqb Bool.eqb (obs_of (parse_overwrite s)) o.
-Definition overwrite_dec_spec_ok (s : string) (o : obs bool) : bool := dec_spec_ok Bool.eqb (overwrite_den s) o.
+Definition overwrite_den_ci (s : string) : option bool := assoc_str_ci overwrite_table s.
+Definition overwrite_dec_spec_ok (s : string) (o : obs bool) : bool :=
+  dec_spec_ci Bool.eqb (overwrite_den s) (overwrite_den_ci s) o.
 
 (** (copy-e2e norec noow): webdav.Client.Copy writes Depth (infinity, or 0 for
     NoRecursive) and Overwrite; handleCopyMove parses them and hands the options on *)
